@@ -963,8 +963,30 @@ def p_C18(ctx):
         n = ctx.ncases
         ctx.cases[n] = {"name": name, "text": text}
         base = os.path.join(tmp, str(n))
+        extra = []
+        if n % 3 == 0:
+            # user factors for the district networks given twice - metadata of the file and options with other
+            # values - on a building that uses both networks: the saved files must carry the values used
+            nsteps = 0
+            for ln in text.splitlines():
+                toks = [t.strip() for t in ln.split("#")[0].split(",")]
+                if len(toks) > 2 and toks[0].lstrip("-").isdigit():
+                    k = 0
+                    for t in reversed(toks):
+                        try:
+                            float(t)
+                            k += 1
+                        except ValueError:
+                            break
+                    nsteps = k
+                    break
+            if nsteps:
+                text = ("#META CTE_RED1: 0.5, 0.8, 0.1\n#META CTE_RED2: 0.1, 1.9, 0.4\n" + text.rstrip("\n")
+                        + "\n77, CONSUMO, CAL, RED1, " + ", ".join(["7.5"] * nsteps) + "\n77, CONSUMO, ACS, RED2, " + ", ".join(["2.5"] * nsteps) + "\n")
+                extra = ["--red1", "0.2", "1.1", "0.05"] if n % 2 else ["--red2", "0.9", "0.3", "0.02"]
+                ctx.cases[n] = {"name": name, "text": text, "argv_extra": extra}
         open(base + ".in.csv", "w").write(text)
-        r1 = cli.run_proc(["-c", base + ".in.csv", "-l", "PENINSULA", "--arearef=50.25", "--kexp=0.25" if n % 2 else "--kexp=0.75", "--oc", base + ".oc.csv", "--of", base + ".of.csv", "--json", base + ".j1"], tmp)
+        r1 = cli.run_proc(["-c", base + ".in.csv", "-l", "PENINSULA", "--arearef=50.25", "--kexp=0.25" if n % 2 else "--kexp=0.75", "--oc", base + ".oc.csv", "--of", base + ".of.csv", "--json", base + ".j1"] + extra, tmp)
         inp.append({"case": n, "tag": "orig", "json": base + ".j1", "exit": r1["exit"] if isinstance(r1["exit"], int) else -1})
         if r1["exit"] == 0:
             r2 = cli.run_proc(["-c", base + ".oc.csv", "-f", base + ".of.csv", "--json", base + ".j2"], tmp)
